@@ -111,3 +111,10 @@ Definition edit_obs (c : list text * nat * nat * N) : text * (N * list text) :=
   let '(cl, s, e, k) := c in
   let '(rest, reg) := if k =? 0 then delete_range cl s e else if k =? 1 then yank_range cl s e else delete_lines cl s e in
   (concat rest, reg_obs reg).
+
+From Vicut Require Import Model.Cursor.
+(** (clusters, cursor) -> (line by characters, line by clusters, byte offset, char) *)
+Definition position_obs (c : list text * nat) :=
+  let '(cl, cur) := c in
+  (line_number_chars cl cur, line_number_clusters cl cur, byte_pos cl cur, char_at cl cur,
+   cur - line_start cl (line_number_clusters cl cur))%nat.
